@@ -181,6 +181,41 @@ func genTLSTokens(repo string) (string, error) {
 		fmt.Fprintf(&b, "(* %s *)\n", strings.ReplaceAll(perr.Error(), "*)", "* )"))
 	}
 	fmt.Fprintf(&b, "Definition tls_provider_cfg_private : bool := %v.\n", private)
+	// NewTLSServerContextManager builds a fresh manager on every call: its first statement creates the manager; an
+	// earlier statement that can return (a cache lookup) makes the manager in force depend on earlier configurations
+	cached := true
+	if fd := FindFunc(func() *ast.File { _, f2, _ := ParseGoFile(repo, "pkg/mtls/tls_context_manager.go"); return f2 }(), "", "NewTLSServerContextManager"); fd != nil {
+		cached = false
+		for _, st := range fd.Body.List {
+			if as, isa := st.(*ast.AssignStmt); isa && len(as.Rhs) == 1 {
+				if u, isu := as.Rhs[0].(*ast.UnaryExpr); isu {
+					if cl, isc := u.X.(*ast.CompositeLit); isc && exprString(cl.Type) == "serverContextManager" {
+						// the manager takes its inspector flag from the configuration it is built for
+						for _, e := range cl.Elts {
+							if kv, iskv := e.(*ast.KeyValueExpr); iskv && exprString(kv.Key) == "inspector" && exprString(kv.Value) != "cfg.Inspector" {
+								cached = true
+							}
+						}
+						break
+					}
+				}
+			}
+			hasReturn := false
+			ast.Inspect(st, func(n ast.Node) bool {
+				if _, isr := n.(*ast.ReturnStmt); isr {
+					hasReturn = true
+				}
+				return true
+			})
+			if hasReturn {
+				cached = true // something can return before the manager is built
+				break
+			}
+		}
+	} else {
+		ok = false
+	}
+	fmt.Fprintf(&b, "Definition tls_manager_cached : bool := %v.\n", cached)
 	fmt.Fprintf(&b, "Definition TLSTokens_translator_ok := %v.\n", ok)
 	return b.String(), nil
 }
